@@ -255,6 +255,16 @@ Theorem C05_load_recursion_terminates_disk :
 Proof. exact disk_visit_roots_terminates. Qed.
 Print Assumptions C05_load_recursion_terminates_disk.
 
+(* [visit_trace] — the function compared with krusty builds over bases (roots whose kustomization file is
+   read, in order, and the outcome class) — is [visit_roots] with its trace *)
+Theorem C05_visit_trace_is_visit_roots :
+  forall (is_repo : string -> bool) (git_new : loader -> string -> res loader) fs bases fuel l,
+    class_of (visit_roots is_repo git_new fuel fs bases l) = snd (visit_trace is_repo git_new fuel fs bases l) /\
+    (forall rs, visit_roots is_repo git_new fuel fs bases l = Ok rs ->
+                fst (visit_trace is_repo git_new fuel fs bases l) = rs).
+Proof. exact visit_trace_spec. Qed.
+Print Assumptions C05_visit_trace_is_visit_roots.
+
 (* ---- obligations over the generated table of raw file-system reads (Gen/RawReads.v) ---- *)
 From KV Require Import Gen.RawReads Fs.RawReadAllow Fs.RawReadsProofs.
 
@@ -275,3 +285,46 @@ Theorem Gen_rawreads_scanned_core :
            "api/types"; "kyaml/filesys"; "kyaml/kio"; "kyaml/openapi"; "kyaml/yaml"] = true.
 Proof. exact rawreads_scanned_core. Qed.
 Print Assumptions Gen_rawreads_scanned_core.
+
+(* ---- build level: the reads of the model build (pipeline model of Res/Pipeline.v + loading front-end) ----
+   Partial: the path-bearing fields of the pipeline model are the kustomization file and `resources:`
+   (files and bases); decoding bytes into directives/documents is a parameter; the other fields are tied by
+   Gen_rawreads_ok (FileLoader.Load is their only way to the file system) and by the build-level search.
+   [linv l]: restrictor RootOnly and a canonical root.  [mem_good m l q b]: q = abs_of cs, the file at cs has
+   bytes b, and the directory of cs is the root of l or below it (disk_good: the same with a physical location). *)
+From KV Require Import Fs.BuildLoad Fs.BuildLoadProofs.
+
+Theorem C05_build_reads_confined_partial :
+  forall (is_repo : string -> bool) (git_new : loader -> string -> res loader)
+         (parse_kust : string -> res (pdirs * list string)) (parse_docs : string -> res (list node)),
+    (forall p, is_repo p = false) ->
+    forall m fuel l t evs,
+      wf_mnode m = true -> linv l ->
+      load_tree is_repo git_new parse_kust parse_docs fuel (mem_ops m) l = Ok (t, evs) ->
+      Forall (fun e => exists l0, linv l0 /\ ev_root e = l_root l0 /\ mem_good m l0 (ev_path e) (ev_bytes e)) evs.
+Proof. exact mem_build_reads_confined. Qed.
+Print Assumptions C05_build_reads_confined_partial.
+
+Theorem C05_build_reads_confined_disk_partial :
+  forall (is_repo : string -> bool) (git_new : loader -> string -> res loader)
+         (parse_kust : string -> res (pdirs * list string)) (parse_docs : string -> res (list node)),
+    (forall p, is_repo p = false) ->
+    forall root cwd fuel l t evs,
+      is_dir_node root -> wf_dnode root = true -> linv l ->
+      load_tree is_repo git_new parse_kust parse_docs fuel (disk_ops root cwd) l = Ok (t, evs) ->
+      Forall (fun e => exists l0, linv l0 /\ ev_root e = l_root l0 /\ disk_good root l0 (ev_path e) (ev_bytes e)) evs.
+Proof. exact disk_build_reads_confined. Qed.
+Print Assumptions C05_build_reads_confined_disk_partial.
+
+(* the whole model build — NewLoader, load_tree, then Res.Pipeline.build, which takes the loaded tree only
+   and has no file system: all of its reads are the confined ones above *)
+Theorem C05_model_build_reads_confined_partial :
+  forall (is_repo : string -> bool) (git_new : loader -> string -> res loader)
+         (parse_kust : string -> res (pdirs * list string)) (parse_docs : string -> res (list node)),
+    (forall p, is_repo p = false) ->
+    forall nonstr o m fuel target out evs,
+      wf_mnode m = true ->
+      model_build is_repo git_new parse_kust parse_docs nonstr o fuel (mem_ops m) target = Ok (out, evs) ->
+      Forall (fun e => exists l0, linv l0 /\ ev_root e = l_root l0 /\ mem_good m l0 (ev_path e) (ev_bytes e)) evs.
+Proof. exact mem_model_build_reads_confined. Qed.
+Print Assumptions C05_model_build_reads_confined_partial.
